@@ -201,6 +201,7 @@ type c03Cfg struct {
 	depth       int // first depth bound that is run
 	maxDepth    int // depth bound aimed at (>= depth); reached by iterative deepening while the time budget allows
 	weight      int // share of the unit's time budget
+	growth      float64 // prior for transitions(depth d+1)/transitions(depth d), measured on this alphabet
 	memo        *c03Memo
 }
 
@@ -967,12 +968,19 @@ func c03Args(runtime, checkParent bool) *c03config.ElasticQuotaArgs {
 }
 
 func c03NewCfg(prefix string, u *c03Universe, runtime, checkParent, withSync bool, nPods, depth, weight int) *c03Cfg {
+	growth := 5.0 // measured: tree 4-5 (runtime off) / 6-8 (runtime on, more with syncs), chain 3-4
+	if runtime {
+		growth = 7
+	}
+	if withSync {
+		growth = 8
+	}
 	b2i := map[bool]int{false: 0, true: 1}
 	if nPods > len(u.pods) {
 		nPods = len(u.pods)
 	}
 	cfg := &c03Cfg{part: fmt.Sprintf("%s-rt%d-cp%d", prefix, b2i[runtime], b2i[checkParent]), u: u, runtime: runtime, checkParent: checkParent,
-		args: c03Args(runtime, checkParent), newPlugin: c03LiteralPlugin, withSync: withSync, nPods: nPods, depth: depth, weight: weight, memo: c03NewMemo()}
+		args: c03Args(runtime, checkParent), newPlugin: c03LiteralPlugin, withSync: withSync, nPods: nPods, depth: depth, weight: weight, growth: growth, memo: c03NewMemo()}
 	c03BuildOps(cfg)
 	return cfg
 }
@@ -985,41 +993,42 @@ func c03NewCfg(prefix string, u *c03Universe, runtime, checkParent, withSync boo
 //     pod set, because the syncs multiply the number of distinct (stale / refreshed) manager states.
 //
 // Time: the engine discards a BFS level the deadline interrupts, so starting a level that cannot be finished
-// wastes the whole remaining budget. The thorough tier therefore deepens iteratively (c03Deepen): a part is run
+// wastes the whole remaining budget. The driver therefore deepens iteratively (c03Deepen): a part is run
 // to its first depth bound, and re-run one level deeper only while the measured growth predicts that the deeper
 // run fits into the time the part has left; unused time is handed on to the next parts, and what is left at the
 // end is spent on deepening parts further, cheapest first. The result reported for a part is its deepest
-// completed run. The quick tier runs every part once, to a depth that completes in seconds.
+// completed run. Both tiers work this way; they differ in the first depth bound, the depth aimed at, the pod
+// set, the map-order repeats and the budget.
 func c03Plan(env *mc.Env) []*c03Cfg {
 	var cfgs []*c03Cfg
 	add := func(c *c03Cfg, max int) {
-		c.maxDepth = c.depth
-		if env.Thorough() && max > c.depth {
-			c.maxDepth = max
+		c.maxDepth = max
+		if max < c.depth {
+			c.maxDepth = c.depth
 		}
 		cfgs = append(cfgs, c)
 	}
-	// cheap parts first: what they do not use is handed on to the expensive ones
+	// first depth bound / depth aimed at: quick 4 -> 5 (with syncs 3 -> 4), thorough 5 -> 7 (with syncs 4 -> 6)
+	d0, d1 := env.Pick(4, 5), env.Pick(5, 7)
+	// cheap parts first: what they do not use is handed on to the expensive ones; weights ~ measured relative cost
 	for _, rt := range []bool{false, true} {
 		for _, cp := range []bool{false, true} {
 			w := 1
 			if rt {
 				w = 2
 			}
-			add(c03NewCfg("chain", c03Chain, rt, cp, rt && env.Thorough(), 4, 5, w), 7)
+			add(c03NewCfg("chain", c03Chain, rt, cp, rt && env.Thorough(), 4, d0, w), d1)
 		}
 	}
 	for _, cp := range []bool{false, true} {
-		add(c03NewCfg("hist", c03Tree, false, cp, false, env.Pick(6, 7), 5, 5), 7)
+		add(c03NewCfg("hist", c03Tree, false, cp, false, env.Pick(6, 7), d0, 5), d1)
 	}
 	if env.Thorough() {
 		add(c03NewCfg("sync", c03Tree, true, false, true, 6, 4, 4), 6)
-		add(c03NewCfg("sync", c03Tree, true, true, true, 6, 4, 4), 6)
-	} else {
-		add(c03NewCfg("sync", c03Tree, true, true, true, 6, 4, 4), 0)
 	}
+	add(c03NewCfg("sync", c03Tree, true, true, true, 6, env.Pick(3, 4), 4), env.Pick(4, 6))
 	for _, cp := range []bool{false, true} {
-		add(c03NewCfg("hist", c03Tree, true, cp, false, env.Pick(6, 7), 5, 8), 7)
+		add(c03NewCfg("hist", c03Tree, true, cp, false, env.Pick(6, 7), d0, 8), d1)
 	}
 	return cfgs
 }
@@ -1033,13 +1042,14 @@ type c03Progress struct {
 }
 
 // predict estimates the wall time of a run one level deeper than the best one: the whole BFS is repeated
-// (replay based, nothing is kept between runs) and the new level dominates.
+// (replay based, nothing is kept between runs); with levels growing geometrically the total grows by the same
+// factor as the last level.
 func (p *c03Progress) predict() time.Duration {
 	g := p.growth
-	if g < 3 {
-		g = 8 // unknown or implausibly small: assume the largest growth seen on these alphabets
+	if g < 2 {
+		g = 2
 	}
-	return time.Duration(p.lastWall * (g + 1) * 1.25 * float64(time.Second))
+	return time.Duration(p.lastWall * g * 1.25 * float64(time.Second))
 }
 
 // c03Deepen runs cfg to successively larger depth bounds until maxDepth, the budget or the prediction stops it.
@@ -1182,10 +1192,18 @@ func TestVerifC03Hist(t *testing.T) {
 	left := 0
 	for _, cfg := range run {
 		left += cfg.weight
-		prog[cfg.part] = &c03Progress{}
+		prog[cfg.part] = &c03Progress{growth: cfg.growth}
 	}
+	floor := time.Duration(env.Pick(8, 30)) * time.Second // no part is starved by a tiny share
 	for _, cfg := range run {
-		c03Deepen(env, cfg, prog[cfg.part], remaining()*time.Duration(cfg.weight)/time.Duration(left))
+		b := remaining() * time.Duration(cfg.weight) / time.Duration(left)
+		if b < floor {
+			b = floor
+		}
+		if b > remaining() {
+			b = remaining()
+		}
+		c03Deepen(env, cfg, prog[cfg.part], b)
 		left -= cfg.weight
 	}
 	// pass 2: spend what is left on deepening further, cheapest predicted run first
